@@ -805,6 +805,26 @@ theorem T4_whole_client_have_only_for_stored_pieces (T : Torrent) (sha1 : Bytes 
   have ho := hinv.owned i ha hlt
   exact ⟨ho, T6_whole_client_owned_pieces_have_been_stored T sha1 X.S (reachH_reach T sha1 X h) i ho⟩
 
+/-- Non-vacuity (test): a reachable state of the whole client in which a `Have` has been written — one connection:
+    handshake, `Interested`, `Unchoke` answered with a request for piece 0, the block, `PieceDone`, and the manager's
+    broadcast coming back to the task. -/
+example : ∃ X, ReachH ⟨[[7]], fun _ => 1⟩ id X ∧ (0, 0) ∈ X.wrote ∧ 0 < X.S.m.statuses.length := by
+  let T : Torrent := ⟨[[7]], fun _ => 1⟩
+  let t0 : HState := { infoHash := [1], ownId := [2], piecesNum := 1 }
+  have r0 : ReachH T id _ := ReachH.init 1 (fun _ => { t0 with alive := false }) (fun _ => rfl)
+  have r1 := ReachH.step _ _ r0 (StepH.connect _ 0 t0 _ rfl ⟨rfl, rfl, rfl⟩ rfl rfl)
+  have r2 := ReachH.step _ _ r1 (StepH.own _ 0 none (.frame (.handshake [1] [3]) (.bitfield [0])) _ _ _
+    ⟨_, _, rfl, (by show _ = _; exact rfl), rfl⟩ (fun i rep h => by cases h))
+  have r3 := ReachH.step _ _ r2 (StepH.own _ 0 none (.frame .interested .none) _ _ _
+    ⟨_, _, rfl, (by show mstep _ _ = _; exact rfl), rfl⟩ (fun i rep h => by cases h))
+  have r4 := ReachH.step _ _ r3 (StepH.own _ 0 none (.frame .unchoke (.req { index := 0, length := 1, hash := [7] } true)) _ _ _
+    ⟨_, _, rfl, (by show ∃ chosen r, mstep _ _ = _ ∧ _ = _; exact ⟨some 0, _, rfl, rfl⟩), rfl⟩ (fun i rep h => by cases h))
+  have r5 := ReachH.step _ _ r4 (StepH.own _ 0 none (.frame (.piece 0 0 [7]) .sendNotInterested) _ _ _
+    ⟨_, _, rfl, (by show ∃ chosen r, mstep _ _ = _ ∧ _ = _; exact ⟨none, _, rfl, rfl⟩), rfl⟩ (fun i rep h => by cases h))
+  have r6 := ReachH.step _ _ r5 (StepH.own _ 0 none (.bcHave 0 .none) _ _ _
+    ⟨_, _, rfl, (by show _ = _; exact rfl), rfl⟩ (fun i rep h => by cases h; decide))
+  exact ⟨_, r6, by decide, by decide⟩
+
 end Whole
 
 /-! ### Non-vacuity (tests) -/
